@@ -632,8 +632,16 @@ r_buf_data_get(r_buf_p r_buf, r_buf_rpos_p rpos, size_t data_size,
 		ret = iovec_aggregate_ex(&r_buf->iov[rpos->iov_index],
 		    (1 + r_buf->iov_index_max - rpos->iov_index), data_size,
 		    rpos->iov_off, iov, iov_cnt, &tm);
-		ret += iovec_aggregate_ex(r_buf->iov, (1 + r_buf->iov_index),
-		    tm, 0, &iov[ret], (iov_cnt - ret), &tm);
+		/* Continue with the current round only if the previous
+		 * one was taken up to its last block. */
+		if ((data_size - tm) == (r_buf_iovec_calc_size(
+		    &r_buf->iov[rpos->iov_index],
+		    (1 + r_buf->iov_index_max - rpos->iov_index)) -
+		    rpos->iov_off)) {
+			ret += iovec_aggregate_ex(r_buf->iov,
+			    (1 + r_buf->iov_index), tm, 0, &iov[ret],
+			    (iov_cnt - ret), &tm);
+		}
 	}
 return_ok:
 	if (NULL != drop_size_ret) {
